@@ -7,9 +7,49 @@ GO_ENV = "export GOFLAGS=-mod=mod GOPROXY=off GOSUMDB=off GOTOOLCHAIN=local"
 # id -> (technique, level text, level note, design ref)
 CLAIMS = {
  "C01": ("exhaustive enumeration + rapid PBT vs exact-rational FIRST model",
-         "All 2 x 2,592 version/base combinations are decoded by each of the three decoders and compared with the FIRST base equations evaluated in exact rational arithmetic (complete enumeration, so for the finite score domain this is as strong as a check can be); token order, nil receivers and optional-metric decoration are explored by rapid (20k quick / 200k thorough) and by 64 hash-seeded presentation variants per combination in the thorough tier.",
-         "Trusted: the reference tables/equations in harness/spec (written from the FIRST documents, self-tested against the documents' examples), Go's math/big, binding of codes to library constants by exported name.",
+         "All 2 x 2,592 version/base combinations are decoded by each of the three decoders and compared with the FIRST base equations evaluated in exact rational arithmetic (a complete enumeration of the finite score domain); token order, nil receivers and optional-metric decoration are explored by rapid (20k quick / 200k thorough) and by 64 hash-seeded presentation variants per combination in the thorough tier.",
+         "Trusted: reference tables/equations in harness/spec (written from the FIRST documents, self-tested against their worked examples and the repository's pinned literals), math/big, binding of codes to library constants by exported name.",
          "DESIGN.md section 6, C01"),
+ "C02": ("exhaustive enumeration + rapid PBT vs exact integer temporal equation",
+         "All 518,400 version x base x temporal vectors are decoded (quick: temporal decoder, canonical form; thorough: temporal and environmental decoder, canonical plus two shuffled / X-spelling / decorated variants) and compared with Roundup(base x E x RL x RC) evaluated in integer arithmetic on the exact rounded base; rapid adds random order, omission, explicit X and nil receivers through both decoders.",
+         "Trusted: as C01; both Roundup readings (v3.0 wording, v3.1 Appendix A) are evaluated and their agreement on the domain is re-measured every run.",
+         "DESIGN.md section 6, C02"),
+ "C03": ("exhaustive enumeration (effective metrics x temporal; thorough: full 1.1e10 product) + seeded sampling + rapid PBT vs exact-rational model",
+         "Layer 1 enumerates all 33,177,600 effective-metric x temporal objects (every Modified metric defined, base metrics disagreeing) against the exact environmental equations; layer 2 checks the fall-back resolution on the version x base x environmental product (3,000,000 distinct seeded points quick, all 11,466,178,560 thorough); layer 3 sends rapid-generated vectors through the environmental decoder.",
+         "Trusted: as C01 plus the reference resolution (Modified X -> base value, MS selecting formula and PR table). Objects in layers 1-2 are built from the exported constructor and exported-field assignment, which the property names as an observation point.",
+         "DESIGN.md section 6, C03"),
+ "C04": ("exhaustive enumeration + rapid PBT vs exact-rational v2 model with admissible-tenth sets",
+         "All 73,629 base x (temporal + absent) vectors are decoded by every applicable decoder and base / temporal scores compared with the exact FIRST v2 equations on unrounded sub-scores (halves admit both neighbours). The 22 listed base vectors of known finding KF-1 are excused only when the library value equals the listed tenth (and its exact propagation for temporal scores).",
+         "Trusted: reference v2 tables/equations (harness/spec, pinned to the v2 guide's examples); known_findings.json is committed and never written at run time.",
+         "DESIGN.md sections 6 (C04) and 7"),
+ "C05": ("exhaustive field sweep (thorough: all 1.41e8) + seeded decode sample + rapid PBT vs exact-rational v2 environmental model",
+         "Quick: all 729 x 64 x 30 objects with the temporal group absent plus the 73,629 group-absent vectors, 200,000 distinct seeded full vectors through Decode and 5,000 rapid vectors; thorough: the complete 141,441,309 product by field assignment on decoded shape templates plus 2,000,000 decoded vectors. Admissible sets cover exact halves and the negative-equation allowance; KF-1/KF-2 inputs are excused only on exact propagation of the listed wrong tenth.",
+         "Trusted: as C04; field assignment on a decoded object is equivalent to decoding the corresponding vector (cross-checked by the decode stage and by C09).",
+         "DESIGN.md sections 6 (C05) and 7"),
+ "C06": ("exhaustive enumeration / seeded sampling with integer grid and band oracle",
+         "Every level of every object in the finite domains of C01-C05 (quick: complete v3 base x temporal, effective environmental domain at 4 temporal settings, 2,000,000 sampled full environmental points, complete v2 base x temporal and the temporal-absent environmental sweep; thorough: all 33,177,600 and all 141,441,309) must score exactly k/10 with 0 <= k <= 100 and report the severity band of k; attained tenths and band edges are reported per level.",
+         "Trusted: band tables transcribed from the property; the v2 negative-equation exception is decided by C05's exact model; -0.0 accepted as 0.",
+         "DESIGN.md section 6, C06"),
+ "C07": ("bounded-exhaustive token neighbourhood + rapid PBT + native coverage-guided fuzzing vs reference recogniser",
+         "The three v3 decoders are compared with a hand-written reference recogniser on ~300,000 single-token edits of 6 representative vectors (complete over a ~680 token vocabulary x every position), 180,000 (quick) / 1,000,000 (thorough) rapid cases (valid vectors of every level at every decoder, classified mutations, single-defect inputs, arbitrary strings) and, in the thorough tier, 120 s of native fuzzing with the oracle inside the target.",
+         "Trusted: reference recogniser written from the property text. The string language is infinite: this is exploration with measured class coverage, not exhaustion.",
+         "DESIGN.md section 6, C07"),
+ "C08": ("bounded-exhaustive token neighbourhood + rapid PBT + native fuzzing vs anchored regular expressions",
+         "Same machinery as C07 for the three v2 decoders; the oracle is three anchored regular expressions transcribed from the property (Go regexp shares nothing with the decoders).",
+         "Trusted: the regular expressions; exploration, not exhaustion, of the string language.",
+         "DESIGN.md section 6, C08"),
+ "C11": ("bounded-exhaustive single-defect enumeration + rapid PBT + native fuzzing vs defect-set classifier",
+         "Every rejection must match exactly one exported sentinel under errors.Is, and that sentinel must be in the set of defects the reference classifier finds in the input; for ~20,000 constructed single-defect inputs (every kind x every token x every position over 12 representative vectors at every covering decoder) and for rapid single-defect inputs the sentinel must be exactly the constructed kind.",
+         "Trusted: classifier (superset semantics for multi-defect inputs, so any scan order of a correct decoder passes); single-defect inputs are single by construction.",
+         "DESIGN.md section 6, C11"),
+ "C12": ("rapid PBT + object-state enumeration + native fuzzing with recover() and exclusivity oracle",
+         "Arbitrary strings (100k quick / 1M thorough, up to 64 KiB, plus eight 1-4 MiB constructed inputs and 180 s native fuzzing in the thorough tier) at all six decoders via constructor and nil receiver: no panic, exactly one of (object, error); every observer on returned objects, left-over receivers, nil receivers and fresh objects never panics; every one-field-reset state of generated accepted vectors must yield GetError != nil, Encode error and Score 0 at every view whose level includes the field.",
+         "Trusted: zero value of each exported enumeration field is its unknown/invalid constant; v2 IsEmpty() on nil receivers is outside the property's observation list.",
+         "DESIGN.md section 6, C12"),
+ "C13": ("exhaustive enumeration with metamorphic (library-vs-library) oracle",
+         "All 518,400 v3 vectors (temporal <= base; all-X temporal == base; all-X environmental == temporal except v3.1 with S:C), all 5,184 base vectors through the environmental decoder with X omitted and spelled out, all 73,629 v2 vectors, and the v2 Target Distribution None slice (1,000,000 distinct seeded points quick, all 28,273,536 thorough).",
+         "Relations between library results only; no reference model is trusted.",
+         "DESIGN.md section 6, C13"),
 }
 
 NOT_YET = "check not built yet in this commit (planned with the same technique; see DESIGN.md section 6)"
